@@ -1001,6 +1001,79 @@ def rule_r15(facts, col, rule_id="C08.R15"):
         col.ok(rule_id, "no-tail-calls", "src/fir.rs", "no function is handed an open-ended tail of a slice")
 
 
+def rule_r16(facts, col, rule_id="C08.R16"):
+    """a copy stage takes what it gives: where the count of a produce() is `min(len(A), len(B))` of the read window A and the
+    write window B (a 1:1 copy limited by both sides), a consume() on A on the same path uses that same count - not A's whole
+    length.  Consuming all of A while only min(..) samples were copied drops the rest of A whenever the output is the short side."""
+    for body0 in facts.impl_bodies(BLOCK_TRAIT, "work"):
+        if body0.from_derive:
+            continue
+        body = effects.work_view(facts, body0, methods=True)
+        k = 0
+        for pbb, pt in body.calls_to(effects.PRODUCE):
+            if len(pt["args"]) < 2:
+                continue
+            cnt = peel(body.operand_expr(pt["args"][1]), through_try=False)
+            if not (cnt.k == "call" and (cnt.q in MIN_CALLS or cnt.rq in MIN_CALLS) and len(cnt.args) == 2):
+                continue
+            ws = [c09.len_of_window(a) for a in cnt.args]
+            if not (all(ws) and {w[1] for w in ws} == {"R", "W"}):
+                continue
+            rw = [w for w in ws if w[1] == "R"][0]
+            for cbb, ct in body.calls_to(effects.CONSUME):
+                w = c09.window_of(body.operand_expr(ct["args"][0]))
+                if not w or w[0] != rw[0] or len(ct["args"]) < 2:
+                    continue
+                if not (cbb in body.reachable(pbb) or pbb in body.reachable(cbb)):
+                    continue
+                key = "%s:copy#%d" % (body0.q, k)
+                k += 1
+                cc = peel(body.operand_expr(ct["args"][1]), through_try=False)
+                if same_expr(cc, cnt):
+                    col.ok(rule_id, key, body.where(cbb), "consume and produce use the same min(len, room)")
+                elif c09.len_of_window(cc) and c09.len_of_window(cc)[0] == rw[0]:
+                    col.bad(rule_id, key, body.where(cbb),
+                            "this stage copies and commits min(len(self.%s), room) samples but consumes the whole read window: whenever the "
+                            "output is the short side the samples that did not fit are dropped (the output depends on the free space)" % rw[0], {})
+                else:
+                    col.silent(rule_id, key, body.where(cbb), "consume count is neither the copy count nor the window length")
+        # second form: the WHOLE read window is consumed on a path that also commits output whose count is not that length and
+        # with nothing establishing that the output had room for all of it (`n = out.iter_mut().zip(in.iter()).count()`)
+        for cbb, ct in body.calls_to(effects.CONSUME):
+            if len(ct["args"]) < 2:
+                continue
+            aw = c09.window_of(body.operand_expr(ct["args"][0]))
+            cc = body.operand_expr(ct["args"][1])
+            lw = c09.len_of_window(cc)
+            if not aw or not lw or lw[0] != aw[0]:
+                continue
+            for pbb, pt in body.calls_to(effects.PRODUCE):
+                if len(pt["args"]) < 2 or not (cbb in body.reachable(pbb) or pbb in body.reachable(cbb)):
+                    continue
+                bw = c09.window_of(body.operand_expr(pt["args"][0]))
+                y = body.operand_expr(pt["args"][1])
+                if effects.count_is_const_zero(body, pt) or not bw:
+                    continue
+                key = "%s:drain#%d" % (body0.q, k)
+                k += 1
+                py = peel(y, through_try=False)
+                if same_expr(py, peel(cc, through_try=False)) or (c09.len_of_window(py) and c09.len_of_window(py)[0] == aw[0]):
+                    col.ok(rule_id, key, body.where(cbb), "as many committed as consumed")
+                    continue
+                room = E("call", q="circular_buffer::BufferWriter::len", args=[E("ref", a=peel(body.operand_expr(pt["args"][0])))])
+                try:
+                    fits = known_ge(body, cbb, room, cc)
+                except Exception:
+                    fits = False
+                if fits:
+                    col.ok(rule_id, key, body.where(cbb), "the output is established to have room for the whole read window")
+                else:
+                    col.bad(rule_id, key, body.where(cbb),
+                            "the whole read window of self.%s is consumed, but the count committed on self.%s is something else and nothing "
+                            "establishes that the output had room for all of it: what did not fit is dropped (output depends on free space)"
+                            % (aw[0], bw[0]), {})
+
+
 def from_logging(t):
     sp = t.get("sp") or {}
     return any(x.startswith(("log::", "debug!", "trace!", "info!", "warn!", "error!", "format_args!", "eprintln!", "println!")) or "log" in x
@@ -1020,6 +1093,7 @@ rule_r9 = effects.view_fallback(rule_r9)
 rule_r10 = effects.view_fallback(rule_r10)
 rule_r13 = effects.view_fallback(rule_r13)
 rule_r14 = effects.view_fallback(rule_r14)
+rule_r16 = effects.view_fallback(rule_r16)
 
 def run(ctx):
     facts = ctx.facts("default")
@@ -1042,6 +1116,8 @@ def run(ctx):
     ctx.floor("C08.R10", 10, "hand-written work() bodies that consume part of a window")
     rule_r11(facts, ctx)
     ctx.floor("C08.R11", 25, "output commitments (produce/push) in hand-written work() bodies of blocks with an input stream")
+    rule_r16(facts, ctx)
+    ctx.floor("C08.R16", 3, "1:1 copy stages (Skip, Delay, FftFilterFloat x2 today)")
     rule_r15(facts, ctx)
     ctx.floor("C08.R15", 1, "functions handed an open-ended tail of a slice (Fir::filter from filter_n / filter_n_inplace)")
     rule_r14(facts, ctx)
